@@ -6,5 +6,5 @@ cd /verif
 for p in "$@"; do
   ./check "$p" 2>&1 | grep -E "VIOLATION|KNOWN-FINDING|\] (ok|FAIL)" | head -4
 done
-git -C /repo checkout -- . 
+git -C /repo checkout -- . ; git -C /repo clean -fdq -e target
 git -C /repo status --short | head -3
